@@ -95,7 +95,7 @@ func (tmp *tmpfile) link() error {
 
 func (tmp *tmpfile) Write(b []byte) (int, error) {
 	if int64(len(b)) > tmp.size {
-		return 0, fmt.Errorf("write exceeds content length %v", tmp.size)
+		return 0, s3err.GetAPIError(s3err.ErrInvalidRequest)
 	}
 
 	n, err := tmp.f.Write(b)
